@@ -15,12 +15,12 @@ func c04Alphabet() []fsx.Op {
 	al := nsAlphabet()
 	al = append(al,
 		fsx.Op{K: "MKDIR", H: "root/d", N: "sub"},
-		fsx.Op{K: "RENAME", H: "root/d", N: "sub", H2: "root", N2: "sub"},  // directory to another parent
-		fsx.Op{K: "RENAME", H: "root", N: "b", H2: "root", N2: "d"},        // directory over (empty?) directory
-		fsx.Op{K: "RENAME", H: "root", N: "d", H2: "root/d", N2: "self"},   // directory into itself
+		fsx.Op{K: "RENAME", H: "root/d", N: "sub", H2: "root", N2: "sub"},    // directory to another parent
+		fsx.Op{K: "RENAME", H: "root", N: "b", H2: "root", N2: "d"},          // directory over (empty?) directory
+		fsx.Op{K: "RENAME", H: "root", N: "d", H2: "root/d", N2: "self"},     // directory into itself
 		fsx.Op{K: "RENAME", H: "root", N: "d", H2: "root/d/sub", N2: "deep"}, // directory into its own subtree
-		fsx.Op{K: "SETATTR", H: "root/d", Size: 64},                        // size change on a directory
-		fsx.Op{K: "REMOVE", H: "root", N: "b"},                            // REMOVE applied to a directory
+		fsx.Op{K: "SETATTR", H: "root/d", Size: 64},                          // size change on a directory
+		fsx.Op{K: "REMOVE", H: "root", N: "b"},                               // REMOVE applied to a directory
 		fsx.Op{K: "CREATE", H: "root", N: "big"},
 		fsx.Op{K: "WRITE", H: "root/big", Off: 600 * 4096, Cnt: 1, Pat: 0x51, Stable: 2},
 		fsx.Op{K: "SETATTR", H: "root/big", Size: 5},
